@@ -205,7 +205,7 @@ class ConcatenatedDrillhole(ConcatenatedObject, Drillhole):
             if isinstance(depth, list):
                 depth = np.vstack(depth)
 
-            if len(depth) < len(values):
+            if len(depth) < np.size(values):
                 msg = f"Mismatch between input 'depth' shape{depth.shape} "
                 msg += f"and 'values' shape{values.shape}"
                 raise ValueError(msg)
@@ -294,7 +294,7 @@ class ConcatenatedDrillhole(ConcatenatedObject, Drillhole):
                 if from_to.shape[0] == 2:
                     from_to = from_to.T
 
-            assert from_to.shape[0] >= len(values), (
+            assert from_to.shape[0] >= np.size(values), (
                 f"Mismatch between input 'from_to' shape{from_to.shape} "
                 + f"and 'values' shape{values.shape}"
             )
